@@ -130,6 +130,8 @@ class NP:
 
     @staticmethod
     def zeros(shape, dtype=None):
+        if dtype in (bool, int):
+            return _np.zeros(shape, dtype=dtype)
         a = _np.empty(shape, dtype=object)
         a[...] = 0
         return a
@@ -142,6 +144,8 @@ class NP:
 
     @staticmethod
     def identity(n, dtype=None):
+        if dtype in (bool, int):
+            return _np.identity(n, dtype=dtype)
         a = _np.empty((n, n), dtype=object)
         a[...] = 0
         for i in range(n):
